@@ -131,6 +131,7 @@ pub enum IOp {
     Inbound { msg_id: u8, origin: u8, body: InBody, dev: Dev, abort: Option<u16> },
     MinterMint { tok: TokRef, who: u8, to: u8, amount: i64 },
     TransferOwnership { to: u8, auth: AuthVar, abort: Option<u16> },
+    Advance { dseq: u32 },
     Resubmit { k: u16 },
 }
 
@@ -146,6 +147,7 @@ impl IOp {
             IOp::Inbound { .. } => "inbound",
             IOp::MinterMint { .. } => "minter_mint",
             IOp::TransferOwnership { .. } => "transfer_ownership",
+            IOp::Advance { .. } => "advance",
             IOp::Resubmit { .. } => "resubmit",
         }
     }
